@@ -129,7 +129,7 @@ def _order_conflict(tgt, sorder, tkind):
 
 def task_pairs(t):
     """Every (source order, target order) x formats x flags x targets; roots: singletons (+pairs)."""
-    _, n, soi, toi, stride, pairs, focus = t
+    _, n, soi, toi, stride, pairs, sctx, focus = t
     rep = run.Report()
     rec = sweep.Rec(rep)
     env.scratch_dir()
@@ -137,10 +137,30 @@ def task_pairs(t):
     U = Universe(names + ('_e',))
     ords = sweep.orders(names)
     sorder, torder = ords[soi], ords[toi]
-    src = S.new_autoref(sorder)
     masks = U.all_functions(names)
-    refs, b = sweep.build_all(src, U, masks, hold=False)
-    fn = {f: src._add_int(r) for f, r in refs.items()}
+    if sctx == 'plain':
+        src = S.new_autoref(sorder)
+        refs, b = sweep.build_all(src, U, masks, hold=False)
+        fn = {f: src._add_int(r) for f, r in refs.items()}
+    else:
+        # source managers with a HISTORY: node numbers re-used after a collection (K1), swaps
+        # there and back (K2), or built in the reverse order and then reordered to `sorder`
+        # (numbering not topological, dict order of vars differs from the level order)
+        import dd.bdd as _bddmod
+        try:
+            if sctx == 'reordered':
+                rev = {v: n - 1 - l for v, l in sorder.items()}
+                m0, refs, ext0, b = sweep.make_context('K1', rev, U, masks)
+                _bddmod.reorder(m0, dict(sorder))
+            else:
+                m0, refs, ext0, b = sweep.make_context(sctx, sorder, U, masks)
+        except Violation as v:
+            rec('context:' + v.what, v.what, dict(task=t))
+            return rep
+        src = _autoref_around(m0)
+        fn = {f: src._add_int(r) for f, r in refs.items()}
+        for r in refs.values():
+            m0.decref(r)
     fs = sorted(refs)
     pid = os.getpid()
     combos = []
@@ -162,6 +182,7 @@ def task_pairs(t):
             k += 1
             as_dict = bool(k % 2)
             case = dict(task=t[:-1] + (list(rm),), roots=[U.fmt(f) for f in rm], fmt=fmt,
+                        source_history=sctx,
                         flag=flag, target=tk, as_dict=as_dict,
                         src=sweep.order_str(sorder), tgt=sweep.order_str(torder))
             fname = 'c12-%d.%s' % (pid, 'p' if fmt == 'pickle' else 'json')
@@ -182,6 +203,14 @@ def task_pairs(t):
         except OSError:
             pass
     return rep
+
+
+def _autoref_around(raw):
+    import dd.autoref as _autoref
+    b = _autoref.BDD.__new__(_autoref.BDD)
+    b._bdd = raw
+    b.vars = raw.vars
+    return b
 
 
 def task_noroots(t):
@@ -265,16 +294,21 @@ def plan(tier):
     if tier == 'quick':
         for soi in range(6):
             for toi in range(6):
-                ts.append(('p', 3, soi, toi, 37 if soi != toi else 5, 0, None))
-        ts.append(('p', 3, 0, 5, 256, 37, None))
+                ts.append(('p', 3, soi, toi, 37 if soi != toi else 5, 0, 'plain', None))
+        ts.append(('p', 3, 0, 5, 256, 37, 'plain', None))
+        for k, sctx in enumerate(('K1', 'K2', 'reordered')):
+            for soi, toi in ((0, 0), (1, 4), (5, 2)):
+                ts.append(('p', 3, soi, toi, 7, 0, sctx, None))
         for oi in range(6):
             ts.append(('n', 3, oi, ('K0', 'K1', 'K2')[oi % 3], None))
     else:
         for soi in range(6):
             for toi in range(6):
-                ts.append(('p', 3, soi, toi, 1, 0, None))
+                ts.append(('p', 3, soi, toi, 1, 0, 'plain', None))
+                ts.append(('p', 3, soi, toi, 3, 0, ('K1', 'K2', 'reordered')[(soi + toi) % 3], None))
         for soi, toi in ((0, 5), (2, 3), (4, 4)):
-            ts.append(('p', 3, soi, toi, 256, 9, None))
+            ts.append(('p', 3, soi, toi, 256, 9, 'plain', None))
+            ts.append(('p', 3, soi, toi, 256, 9, 'reordered', None))
         for oi in range(6):
             for ctx in ('K0', 'K1', 'K2'):
                 ts.append(('n', 3, oi, ctx, None))
